@@ -29,18 +29,6 @@ impl Sink {
     { unimplemented!() }
 }
 
-#[verifier::external_body]
-fn shim_u64_to_le_bytes(x: u64) -> (r: [u8; 8])
-    ensures r@ == le_bytes64(x)
-{ x.to_le_bytes() }
-#[verifier::external_body]
-fn shim_le_u64(b: &[u8], lo: usize, hi: usize) -> (r: Result<u64>)
-    requires lo + 8 == hi, hi <= b@.len()
-    ensures r is Ok, le_bytes64(r->Ok_0) == b@.subrange(lo as int, hi as int),
-        forall|x: u64| le_bytes64(x) == b@.subrange(lo as int, hi as int) ==> x == r->Ok_0
-{ unimplemented!() }
-spec fn le_bytes64(x: u64) -> Seq<u8> { Seq::new(8, |i: int| (x >> ((8 * i) as u64)) as u8) }
-
 // ---- format specification (E57 standard; confirmed on files written by libE57Format and las2e57 in testdata) ----
 /// blob section header: 16 bytes, byte 0 = section id 0, bytes 1..8 reserved zero, bytes 8..16 = section length (LE)
 spec fn spec_blob_header(section_length: u64) -> Seq<u8> {
